@@ -119,21 +119,31 @@ def load_references():
     if 'refs' in _CACHE:
         return
     roots = [{'prog': i, 'name': name} for i, (name, _) in enumerate(the_corpus())] + [{'file': n} for n in shipped_names()]
-    plain = [L.canonical_text(root_state(c)) for c in roots]
-    res = pristine('script', plain)
-    res_lines = pristine('script', [t.split('\n') for t in plain])
-    for case, obs, obs_lines in zip(roots, res, res_lines):
-        # the plain text is parsed twice, as one string and as the list of its logical lines; the reference model is the
-        # string result (the list result if the string is rejected); a disagreement between the two is reported by the
-        # root's search as a violation of its own (one string versus chunks is part of the property)
-        good = obs if obs[0] == 'ok' else obs_lines
-        if good[0] != 'ok':
-            raise HarnessError(f'the plain logical-line text of a root does not parse: {case} {obs[:4]}')
-        _CACHE[('model', case.get('prog'), case.get('file'))] = good[1]
-        _CACHE[('plainpair', case.get('prog'), case.get('file'))] = (obs, obs_lines)
+    # Four plain layouts of every root are parsed, each in a fresh process: the tightest text as one string and as the list of
+    # its lines, the text with one blank at every gap, the root text as written. A root is a fixed valid program: the first
+    # of them that parses gives the reference model; a layout that is rejected, or parses differently, is reported by the
+    # root's search as a violation (check_plain) - never as a harness error.
+    tight = [L.canonical_text(root_state(c)) for c in roots]
+    layouts = [pristine('script', tight),
+               pristine('script', [t.split('\n') for t in tight]),
+               pristine('script', [L.canonical_text(root_state(c), spaced=True) for c in roots]),
+               pristine('script', [_as_arg(L.render(root_state(c))) for c in roots])]
+    for n, case in enumerate(roots):
+        cands = tuple(lay[n] for lay in layouts)
+        good = next((obs for obs in cands if obs[0] == 'ok'), None)
+        _CACHE[('model', case.get('prog'), case.get('file'))] = good[1] if good is not None else None
+        _CACHE[('plainpair', case.get('prog'), case.get('file'))] = cands
     _CACHE[('baseline', 'script')] = pristine('script', script_texts())
     _CACHE[('baseline', 'expression')] = pristine('expression', expr_texts())
     _CACHE['refs'] = True
+
+
+def _as_arg(inp):
+    return list(inp) if isinstance(inp, tuple) else inp
+
+
+PLAIN_LAYOUTS = ['the tightest text (no optional whitespace) as one string', 'the tightest text as the list of its lines',
+                 'the text with one blank at every gap', 'the root text as written']
 
 
 def original_model(case):
@@ -172,6 +182,9 @@ def compare_text(case, inp, acc, kind=None):
     if obs[0] != 'ok':
         acc.violation(_with_text(case, inp), 'the model of the plain logical-line text', list(obs), 'the text is rejected by the parser')
         return False
+    if orig is None:
+        acc.count('states_without_reference')     # every plain layout of this root was rejected (reported by check_plain)
+        return True
     if obs[1] != orig:
         acc.violation(_with_text(case, inp), 'the model of the plain logical-line text', first_difference(orig, obs[1]), 'the text parses to a different model')
         return False
@@ -186,20 +199,29 @@ def _with_text(case, inp):
 
 
 def check_plain(case, acc):
-    """The plain logical-line text of a root, parsed in fresh processes as one string and as the list of its lines, must
-    give the same model."""
+    """The plain layouts of a root (PLAIN_LAYOUTS), each parsed in a fresh process. A root is a fixed valid program: every
+    layout must be accepted and all must give the same model."""
     load_references()
-    obs, obs_lines = _CACHE[('plainpair', case.get('prog'), case.get('file'))]
-    acc.evals += 2
+    cands = _CACHE[('plainpair', case.get('prog'), case.get('file'))]
+    ref = original_model(case)
+    acc.evals += len(cands)
     acc.traces += 1
-    if obs != obs_lines:
-        text = L.canonical_text(root_state(case))
-        acc.violation(dict(case, plain=True, text=text if len(text) <= 1500 else '(long)'),
-                      {'as_list_of_lines': show(obs_lines[:4] if obs_lines[0] != 'ok' else 'accepted')},
-                      {'as_one_string': show(obs[:4] if obs[0] != 'ok' else 'accepted')},
-                      'the plain text parses differently as one string and as the list of its lines')
+    ok = True
+    tight = L.canonical_text(root_state(case))
+    base = dict(case, plain=True, tightest_text=tight if len(tight) <= 1500 else '(long)')
+    if ref is None:
+        acc.violation(base, 'a valid program is accepted', [list(c[:4]) for c in cands], 'every plain layout of the root is rejected by the parser')
         return False
-    return True
+    for label, obs in zip(PLAIN_LAYOUTS, cands):
+        if obs[0] != 'ok':
+            acc.violation(dict(base, layout=label), 'accepted, with the model of the other plain layouts', list(obs[:7]),
+                          'one plain layout of the root is rejected while another one parses')
+            ok = False
+        elif obs[1] != ref:
+            acc.violation(dict(base, layout=label), 'the model of the other plain layouts', first_difference(ref, obs[1]),
+                          'two plain layouts of the root parse to different models')
+            ok = False
+    return ok
 
 
 def check_path(case, acc):
@@ -308,7 +330,7 @@ def bfs_shards(depth):
     return [(d, i, k, parts) for _, d, i, k, parts in out]
 
 
-DEPTH3_MAX_REWRITES = 250    # a root with more depth-1 rewrites than this is searched to depth 2 in thorough as well (time budget)
+DEPTH3_MAX_REWRITES = 190    # a root with more depth-1 rewrites than this is searched to depth 2 in thorough as well (time budget)
 
 
 def fam_shipped(arg):
